@@ -236,7 +236,7 @@ def run(rep: Report, prog: Program, tier: str) -> None:
         seq = start
         for fi_, n in enumerate(list(sizes) + [1, 1, 1, 1]):
             for k in range(n):
-                pkts.append(SimpleNamespace(sequence_number=seq % 65536, timestamp=(1000 + 3000 * fi_) % (1 << 32), _data=bytes([fi_, k]), frame=fi_))
+                pkts.append(SimpleNamespace(sequence_number=seq % 65536, timestamp=((1000 if start == 0 else (1 << 32) - 7000) + 3000 * fi_) % (1 << 32), _data=bytes([fi_, k]), frame=fi_))
                 seq += 1
         order = list(range(len(pkts)))
         if swap is not None and swap + 1 < len(order):
